@@ -7,11 +7,11 @@ from harness.sim import Sim
 from harness import monitors
 from harness.witness._common import result, tag
 
-PROPERTIES = ["C01", "C02", "C04"]
+PROPERTIES = ["C01", "C02", "C04", "C05", "C09"]
 ORDER = 10
 
 
-def scenario(repo, seed=1):
+def scenario(repo, seed=1, lost_n=1, new_n=5):
     sim = Sim(repo, ["a", "b", "c"], seed=seed, conf={"logCompactionBatchSize": 8})
     watch = monitors.CommitWatch(sim)
     sim.connect_all()
@@ -22,10 +22,12 @@ def scenario(repo, seed=1):
     for o in others:
         sim.disconnect(L, o)
     lost = sim.submit(L, "LOST")
+    for k in range(lost_n - 1):
+        sim.submit(L, "LOST%d" % k)
     sim.tick(L, 0.0625)
     L2 = sim.elect(among=others)
     assert L2 is not None
-    for k in range(5):
+    for k in range(new_n):
         sim.submit(L2, "n%d" % k)
     sim.run(10, among=others)
     sim.compact(L2)
@@ -55,13 +57,43 @@ def scenario(repo, seed=1):
     return sim, viols
 
 
+def convergence(repo):
+    """C05: the same history with MORE unacknowledged entries on the deposed leader than the others committed (its
+    applied index would pass the snapshot position, the snapshot would then be skipped as "already applied"), then a
+    quiet period with everybody connected: every replica must hold the leader's state."""
+    out = []
+    for (lost_n, new_n) in ((5, 4), (7, 3), (3, 3)):
+        sim, viols = scenario(repo, lost_n=lost_n, new_n=new_n)
+        sim.connect_all()
+        sim.run(int(20 / 0.0625))
+        L = sim.leader(sim.voters)
+        ref = list(sim.objs[L].log) if L is not None else None      # the replicated state (survives a snapshot install)
+        for n in sim.voters:
+            got = list(sim.objs[n].log)
+            if ref is not None and got != ref:
+                out.append({"signature": "convergence:replica-state-differs-after-quiet-period",
+                            "what": "deposed leader with %d unacknowledged entries, %d committed by the others, snapshot needed: after "
+                                    "20 s of quiet time node %s holds %s, leader %s holds %s" % (lost_n, new_n, n, got[-8:], L, ref[-8:])})
+                break
+        if out:
+            break
+    return sim, out
+
+
 def run(ctx):
     t0 = time.time()
+    if ctx.pid in ("C05", "C09"):      # C09: the node that needs the snapshot must end with the state at its position
+        sim, viols = convergence(ctx.repo)
+        return result("witness.d02_snapshot_chunk_commit", tag(viols[:1], "d02_snapshot_chunk_commit", {"mode": "convergence"}),
+                      {"schedule_events": len(sim.trace)}, t0)
     sim, viols = scenario(ctx.repo)
     return result("witness.d02_snapshot_chunk_commit", tag(viols, "d02_snapshot_chunk_commit", {}),
                   {"schedule_events": len(sim.trace)}, t0)
 
 
 def replay(ctx, violation):
+    if violation.get("replay", {}).get("mode") == "convergence":
+        sim, viols = convergence(ctx.repo)
+        return {"violated": bool(viols), "violations": viols[:2]}
     sim, viols = scenario(ctx.repo)
     return {"violated": bool(viols), "violations": viols[:5]}
